@@ -122,6 +122,15 @@ func orderCases() []orderCase {
 	add("varcall-chainarg", "§0@(§1)^id", "[1]", "[]")
 	add("varcall-args", "§0.^ff(§1, k: §2)", "1", "2", "3")
 	add("trailing-func-kwarg-default", "ff(§0, §1) {|y, k: §2| y}", "1", "2", "3")
+	// chains that may skip the call: the receiver decides whether the property is called, never whether the written
+	// chain argument and arguments are evaluated
+	add("lonely-nil-receiver", "§0&.foo(§1, §2)", "nil", "1", "2")
+	add("lonely-nil-receiver-chainarg-kwargs", "§0&.(§1)foo(§2, *§3, k: §4, j: §5)", "nil", "0", "1", "[2]", "3", "4")
+	add("lonely-nil-receiver-unpack", "§0&.foo(§1, *§2, **§3)", "nil", "1", "[2]", "{j: 4}")
+	add("lonely-receiver", "§0&.at(§1)", "[5]", "[0]")
+	add("lonely-list-nil-elements", "§0&@at(§1)", "[nil, [5], nil]", "[0]")
+	add("thoughtful-receiver", "§0~.+(§1)", "1", "2")
+	add("thoughtful-failing-call", "§0~.at(§1, §2)", "1", "0", "0")
 	add("embedded-str", `"a#{§0}b#{§1}c#{§2}d"`, "1", "2", "3")
 	add("embedded-str-2", `"#{§0}#{§1}"`, "1", "2")
 	add("index", "§0[§1]", "[1, 2]", "0")
@@ -154,6 +163,9 @@ func orderCases() []orderCase {
 	cs = append(cs, orderCase{Name: "dup-propcall-two-unpacks", Src: "oo.m(1, 2, **{k: 1}, **{k: 2, j: 3}).p", WantOut: "[1, 2, 1, 3]\n"})
 	cs = append(cs, orderCase{Name: "dup-obj-two-unpacks", Src: "{**{y: 1}, **{y: 2, z: 3}}.p", WantOut: "{\"y\": 1, \"z\": 3}\n"})
 	cs = append(cs, orderCase{Name: "dup-map-two-unpacks", Src: "%{**%{1: 1}, **%{1: 2, 2: 3}}.p", WantOut: "%{1: 1, 2: 3}\n"})
+	cs = append(cs, orderCase{Name: "dup-map-nonscalar-key-two-unpacks", Src: "%{**%{[1]: \"first\", \"x\": 1}, **%{[1]: \"second\", \"y\": 2}}.p", WantOut: "%{\"x\": 1, \"y\": 2, [1]: \"first\"}\n"})
+	cs = append(cs, orderCase{Name: "dup-map-obj-key-three-unpacks", Src: "%{**%{{id: 1}: \"p\"}, **%{\"z\": 0}, **%{{id: 1}: \"q\"}}.p", WantOut: "%{\"z\": 0, {\"id\": 1}: \"p\"}\n"})
+	cs = append(cs, orderCase{Name: "dup-map-nonscalar-key-literal-and-unpacks", Src: "%{[1]: \"lit\", **%{[1]: 1}, **%{[1]: 2, [2]: 3}}.p", WantOut: "%{[1]: \"lit\", [2]: 3}\n"})
 	cs = append(cs, orderCase{Name: "dup-kwargs-var", Src: "{|| \\_}(**{k: 1}, **{k: 2, j: 3}).p", WantOut: "{\"j\": 3, \"k\": 1}\n"})
 	// stdin-consuming and iterator-advancing variants (value shows the order)
 	cs = append(cs, orderCase{Name: "stdin-array", Src: "[<>.S, <>.S, <>.S].p", Stdin: "l1\nl2\nl3\n", WantOut: "[\"l1\", \"l2\", \"l3\"]\n"})
